@@ -11,11 +11,11 @@ import (
 )
 
 type EV struct {
-	V      SVal
-	T      types.Type // Go type; nil for untyped constant / nil literal / type value
-	Const  *big.Int   // untyped integer constant
-	IsNil  bool       // the literal nil
-	TypeV  types.Type // a type used as a value (dyntype comparisons, conversions)
+	V     SVal
+	T     types.Type // Go type; nil for untyped constant / nil literal / type value
+	Const *big.Int   // untyped integer constant
+	IsNil bool       // the literal nil
+	TypeV types.Type // a type used as a value (dyntype comparisons, conversions)
 }
 
 type specError struct{ msg string }
@@ -820,6 +820,13 @@ func (c *EvalCtx) call(e *Expr) EV {
 				specFail("dyntype of non-interface")
 			}
 			return EV{V: iv.Tag, T: nil}
+		case "float32bits", "float64bits":
+			a := c.Eval(args[0])
+			t := types.Typ[types.Uint32]
+			if name == "float64bits" {
+				t = types.Typ[types.Uint64]
+			}
+			return EV{V: c.term(a, name), T: t}
 		case "isnil":
 			a := c.Eval(args[0])
 			return EV{V: c.equal(a, EV{IsNil: true}, e), T: tBool}
